@@ -36,11 +36,11 @@ CLAIMED = {
         text="Machine-checked proof on a stated expression fragment: a value reported by the literal_value model is the value of the expression "
              "in every environment (environment independence of name-free evaluation, mutual induction over expressions), raising expressions "
              "are unknown, known values involve no call outside the pure builtins, and/or have value semantics. The evaluator doubles as reference "
-             "semantics validated against CPython eval. The consumer remove_redundant_boolop_values is modelled and proved to keep the VALUE of every and / or chain, also "
+             "semantics validated against CPython eval (builtins in the fragment: len abs bool int min max sum any all tuple list). The consumer remove_redundant_boolop_values is modelled and proved to keep the VALUE of every and / or chain, also "
              "when repeated by processing.fix (exhaustive tie over all truth-value masks up to length 6). 8 theorems.",
         design="4/C15",
         note="Trusted: Lean kernel; Lit.lean tied to core.literal_value (suite lit) and to CPython eval (suite pyeval); floats, string methods, "
-             "dict/set, repetition are outside the fragment (covered by the eval oracle only).",
+             "dict/set, repetition are outside the fragment (covered by the eval oracle only); builtin names are assumed to denote the builtins (a module that rebinds len: recorded finding).",
         technique="Lean 4 proof (mutual structural induction) + differential correspondence with literal_value and with CPython eval",
     ),
     "C16": dict(
@@ -67,7 +67,8 @@ CLAIMED = {
              "rollback too); the line scan is characterised exactly. 5 theorems.",
         design="4/C20",
         note="Trusted: Lean kernel; Lines/Sched models tied by suites lines and sched-ignored; the direct editing path (alter_code) and raw-text stages "
-             "are outside the theorems (annotate-a-line oracle and a per-rule direct-editing suite; the two defects they found are repaired: f435970, 9fc5461).",
+             "are outside the theorems (annotate-a-line oracle incl. line separators above the annotated line, a per-rule direct-editing suite with a half-applied-edit check; the defects they found are repaired, the text preludes "
+             "expandtabs / rmspace on annotated lines are a recorded finding).",
         technique="Lean 4 proof (splice algebra + scheduler invariant) + differential correspondence + annotate-every-line oracle",
     ),
     "C05": dict(
@@ -185,7 +186,8 @@ CLAIMED = {
     ),
     "C08": dict(
         text="Machine-checked proof of the guard and of the preserve-set plumbing: a guarded rule touches no preserved name; a name used by a preserved file of another "
-             "namespace (referenced import or any attribute) is in the set handed to the library file; only the file's own namespace is excluded. 4 theorems.",
+             "namespace (referenced import, any attribute, the name behind an import alias, a name imported only to be re-exported and - behind a star import - every name the file mentions) is in the set handed to the library file; "
+             "only the file's own namespace is excluded. 5 theorems.",
         design="4/C08",
         note="Trusted: Lean kernel; Preserve.lean tied by suites usednames (_used_names_in_file) and filepreserve (set captured per target file through the real "
              "format_files / pool); the unused-analyses are not modelled; oracles: preserved names still defined, CLI --preserve keeps clients working.",
